@@ -3,7 +3,7 @@
    regenerated from dns/rdtypes/** on every run and checked against `entry_ok` (theorem
    gen_table_ok in the generated file), so that they apply to every generated type. *)
 From DV Require Import Base.Prelude Model.NameM Model.SchemaM Proofs.SchemaCodec Proofs.SchemaThm Proofs.SchemaFix Proofs.SchemaTable Proofs.SchemaOrigin.
-From DV Require Proofs.NameValid.
+From DV Require Proofs.NameValid Proofs.SchemaExamples.
 From DV Require Import Model.DispatchM Proofs.SchemaDispatch Model.SchemaHand Proofs.SchemaHandThm Proofs.SchemaTotal Proofs.SchemaReenc.
 Open Scope Z_scope.
 
@@ -221,48 +221,48 @@ Proof. exact amtrelay_fixed_point_thm. Qed.
 Print Assumptions amtrelay_fixed_point.
 
 (* ---------- non-vacuity: the hypotheses are satisfiable on realistic records ---------- *)
-Definition mx_schema := [FS (FU 2 65535); FS (FName true)].
-Definition mx_value := [VS (VI 10); VS (VN [[109; 97; 105; 108]; [101; 120]; []])].
-Example mx_wf : schema_wf mx_schema = true. Proof. reflexivity. Qed.
+Notation mx_schema := SchemaExamples.mx_schema (only parsing).
+Notation mx_value := SchemaExamples.mx_value (only parsing).
+Example mx_wf : schema_wf mx_schema = true.
+Proof. exact SchemaExamples.mx_wf_ex. Qed.
 Example mx_encodes :
   encode_rdata None mx_schema CkNone mx_value = Ok [0; 10; 4; 109; 97; 105; 108; 2; 101; 120; 0].
-Proof. reflexivity. Qed.
+Proof. exact SchemaExamples.mx_encodes_ex. Qed.
 Example mx_decodes_inside_message :
   decode_rdata None mx_schema CkNone ([7; 7; 7] ++ [0; 10; 4; 109; 97; 105; 108; 2; 101; 120; 0] ++ [9]) 3 11
   = Ok mx_value.
-Proof. reflexivity. Qed.
+Proof. exact SchemaExamples.mx_decodes_inside_message_ex. Qed.
 
-Definition nsec3_schema :=
-  [FS (FU 1 255); FS (FU 1 255); FS (FU 2 65535); FS (FCounted 1 0 255); FS (FCounted 1 0 255);
-   FRepeat false true [FU 1 255; FCounted 1 1 32]].
-Example nsec3_wf : schema_wf nsec3_schema = true. Proof. reflexivity. Qed.
+Notation nsec3_schema := SchemaExamples.nsec3_schema (only parsing).
+Example nsec3_wf : schema_wf nsec3_schema = true.
+Proof. exact SchemaExamples.nsec3_wf_ex. Qed.
 Example nsec3_roundtrip :
   let v := [VS (VI 1); VS (VI 0); VS (VI 12); VS (VB [170; 187]); VS (VB [1; 2; 3]);
             VL [[VI 0; VB [64; 1]]; [VI 1; VB [128]]]] in
   exists b, encode_rdata None nsec3_schema CkNone v = Ok b /\
             decode_rdata None nsec3_schema CkNone b 0 (length b) = Ok v.
-Proof. eexists. split; reflexivity. Qed.
+Proof. exact SchemaExamples.nsec3_roundtrip_ex. Qed.
 
 (* trailing octets are refused (inexact consumption) *)
 Example a_record_trailing_octet :
   decode_rdata None [FRemN 4] CkNone [1; 2; 3; 4; 5] 0 5 = Lib eFormError.
-Proof. reflexivity. Qed.
+Proof. exact SchemaExamples.a_record_trailing_octet_ex. Qed.
 
 (* a table entry as the translator emits it (A: reader get_remaining + exact length, writer 4 octets) *)
 Example a_entry_ok :
   entry_ok (mk_entry 1 1 [(FS (FFixed 4), 0)] [(FRemN 4, 0)] CkNone) = true.
-Proof. reflexivity. Qed.
+Proof. exact SchemaExamples.a_entry_ok_ex. Qed.
 (* a width slip on one side only is rejected *)
 Example mx_width_slip_rejected :
   entry_ok (mk_entry 255 15 [(FS (FU 4 65535), 0); (FS (FName true), 1)]
                             [(FS (FU 2 65535), 0); (FS (FName true), 1)] CkNone) = false.
-Proof. reflexivity. Qed.
+Proof. exact SchemaExamples.mx_width_slip_rejected_ex. Qed.
 (* ... and so is a swap of two equally wide fields *)
 Example srv_swap_rejected :
   entry_ok (mk_entry 255 33
      [(FS (FU 2 65535), 1); (FS (FU 2 65535), 0); (FS (FU 2 65535), 2); (FS (FName true), 3)]
      [(FS (FU 2 65535), 0); (FS (FU 2 65535), 1); (FS (FU 2 65535), 2); (FS (FName true), 3)] CkNone) = false.
-Proof. reflexivity. Qed.
+Proof. exact SchemaExamples.srv_swap_rejected_ex. Qed.
 
 (* origin hypotheses are satisfiable: MX 10 mail (relative) with origin example. *)
 Example mx_relative_with_origin :
@@ -271,12 +271,7 @@ Example mx_relative_with_origin :
   nok_fields (nok_origin o) mx_schema v /\
   exists b, encode_rdata (Some o) mx_schema CkNone v = Ok b /\
             decode_rdata (Some o) mx_schema CkNone b 0 (length b) = Ok v.
-Proof.
-  split.
-  - cbn. repeat split; try exact Logic.I. left. split; [reflexivity|]. split; [reflexivity|].
-    unfold NameValid.Valid. cbn. repeat split; try lia; repeat constructor; cbn; try lia; discriminate.
-  - eexists. split; vm_compute; reflexivity.
-Qed.
+Proof. exact SchemaExamples.mx_relative_with_origin_ex. Qed.
 
 (* dispatch hypotheses are satisfiable and the theorem is not vacuous: a safe history over
    {IN A, CH A, ANY MX} with load_all_types in the middle *)
@@ -286,65 +281,58 @@ Example dispatch_example :
   forallb (safe_step mods) [Query 4 15; LoadAll true; Query cCH 15; Query cCH 1; Query cANY 15; Query 4 1] = true /\
   run_history mods [1; 15] [Query 4 15; LoadAll true; Query cCH 15; Query cCH 1; Query cANY 15; Query 4 1] init_state
   = [L [I 255; I 15]; L [I 255; I 15]; L [I 3; I 1]; L [I 255; I 15]; I 0].
-Proof. repeat split; reflexivity. Qed.
+Proof. exact SchemaExamples.dispatch_example_ex. Qed.
 
 (* hand codecs: the hypotheses hold on realistic records *)
 Example hip_example :
   exists b, hand_encode_rdata HHip None
               [VS (VB [1; 2; 3]); VS (VI 2); VS (VB [9; 9]); VL [[VN [[114; 118; 115]; []]]; [VN [[]]]]] = Ok b.
-Proof. eexists. vm_compute. reflexivity. Qed.
+Proof. exact SchemaExamples.hip_example_ex. Qed.
 Example ipseckey_example :
   exists b, hand_encode_rdata HIpseckey None
               [VS (VI 10); VS (VI 3); VS (VI 2); VS (VN [[103; 119]; []]); VS (VB [1; 2])] = Ok b.
-Proof. eexists. vm_compute. reflexivity. Qed.
+Proof. exact SchemaExamples.ipseckey_example_ex. Qed.
 Example amtrelay_example :
   exists b, hand_encode_rdata HAmtrelay None [VS (VI 10); VS (VI 1); VS (VI 1); VS (VB [192; 0; 2; 1])] = Ok b
             /\ hand_decode_rdata HAmtrelay None b 0 (length b) = Ok [VS (VI 10); VS (VI 1); VS (VI 1); VS (VB [192; 0; 2; 1])].
-Proof. eexists. split; vm_compute; reflexivity. Qed.
+Proof. exact SchemaExamples.amtrelay_example_ex. Qed.
 Example apl_example :
   let v := [VL [[VI 1; VI 1; VB [0; 0; 0; 0]; VI 0]; [VI 2; VI 0; VB [32; 1; 0; 0; 0; 0; 0; 0; 0; 0; 0; 0; 0; 0; 0; 0]; VI 16]]] in
   apl_canon v /\ exists b, hand_encode_rdata HApl None v = Ok b /\ hand_decode_rdata HApl None b 0 (length b) = Ok v.
-Proof.
-  split; [cbn; constructor; [left; reflexivity|constructor; [right; left; reflexivity|constructor]]|].
-  eexists. split; vm_compute; reflexivity.
-Qed.
+Proof. exact SchemaExamples.apl_example_ex. Qed.
 
 Example svcb_example :
   let v := [VS (VI 1); VS (VN [[115; 118; 99]; []]);
             VL [[VI 0; VB [0; 1; 0; 3]]; [VI 1; VB [2; 104; 50]]; [VI 2; VB []]; [VI 3; VB [1; 187]]; [VI 4; VB [192; 0; 2; 1]]]] in
   exists b, hand_encode_rdata HSvcb None v = Ok b /\ hand_decode_rdata HSvcb None b 0 (length b) = Ok v.
-Proof. eexists. split; vm_compute; reflexivity. Qed.
+Proof. exact SchemaExamples.svcb_example_ex. Qed.
 (* a repeated key on the wire keeps the last value (dict semantics) and re-encodes shorter *)
 Example svcb_duplicate_key_normalised :
   hand_decode_rdata HSvcb None [0; 1; 0; 0; 3; 0; 2; 0; 80; 0; 3; 0; 2; 1; 187] 0 15
   = Ok [VS (VI 1); VS (VN [[]]); VL [[VI 3; VB [1; 187]]]].
-Proof. vm_compute. reflexivity. Qed.
+Proof. exact SchemaExamples.svcb_duplicate_key_normalised_ex. Qed.
 
 Example loc_example :
   let lat := [VI 42; VI 21; VI 54; VI 0; VI 1] in
   let lon := [VI 71; VI 6; VI 18; VI 0; VI (-1)] in
   coord_canon 90 lat /\ coord_canon 180 lon /\ In 100 loc_sizes /\ In 1000000 loc_sizes /\
   exists b, hand_encode_rdata HLoc None [VL [lat]; VL [lon]; VS (VI (-2400)); VS (VI 100); VS (VI 1000000); VS (VI 1000)] = Ok b.
-Proof.
-  cbn [coord_canon]. repeat split; try lia; try (left; reflexivity); try (right; reflexivity).
-  - vm_compute. tauto.
-  - vm_compute. tauto.
-  - eexists. vm_compute. reflexivity.
-Qed.
+Proof. exact SchemaExamples.loc_example_ex. Qed.
 
 Example opt_example :
   let v := [VL [[VI 8; VB [0; 1; 20; 0; 192; 0; 32]]; [VI 15; VB [0; 18; 195; 169]]; [VI 10; VB [1; 2; 3; 4; 5; 6; 7; 8]];
                 [VI 18; VB [1; 97; 0]]; [VI 65001; VB []]]] in
   exists b, hand_encode_rdata HOpt None v = Ok b /\ hand_decode_rdata HOpt None b 0 (length b) = Ok v.
-Proof. eexists. split; vm_compute; reflexivity. Qed.
+Proof. exact SchemaExamples.opt_example_ex. Qed.
 (* ECS address bits beyond the source prefix are cleared, a trailing NUL of EDE text is dropped *)
 Example opt_normalises :
   hand_decode_rdata HOpt None [0; 8; 0; 7; 0; 1; 20; 0; 192; 0; 47;  0; 15; 0; 4; 0; 18; 120; 0] 0 19
   = Ok [VL [[VI 8; VB [0; 1; 20; 0; 192; 0; 32]]; [VI 15; VB [0; 18; 120]]]].
-Proof. vm_compute. reflexivity. Qed.
+Proof. exact SchemaExamples.opt_normalises_ex. Qed.
 
 (* schema_reencode is not vacuous: NSEC3 has no names and no optional tail *)
-Example nsec3_no_norm : forallb no_norm nsec3_schema = true. Proof. reflexivity. Qed.
+Example nsec3_no_norm : forallb no_norm nsec3_schema = true.
+Proof. exact SchemaExamples.nsec3_no_norm_ex. Qed.
 
 (* GPOS as the translator emits it: three counted decimal strings with the range check *)
 Example gpos_example :
@@ -352,4 +340,4 @@ Example gpos_example :
   check_wf CkGPOS fs = true /\
   (exists b, encode_rdata None fs CkGPOS [VS (VB [45; 57; 48]); VS (VB [49; 56; 48; 46; 48]); VS (VB [46; 53])] = Ok b) /\
   encode_rdata None fs CkGPOS [VS (VB [57; 48; 46; 48; 49]); VS (VB [48]); VS (VB [48])] = Lib eValueError.
-Proof. repeat split; try reflexivity. eexists. vm_compute. reflexivity. Qed.
+Proof. exact SchemaExamples.gpos_example_ex. Qed.
